@@ -234,6 +234,12 @@ def _code(sym, index):
         return "{}({})".format(h, ", ".join(_code(s, index) for s in sym[1:]))
     if h == "abs":
         return "abs({})".format(_code(sym[1], index))
+    if h == "select":
+        return "({},)[{}]".format(", ".join(_code(x, index) for x in sym[1]), _code(sym[2], index))
+    if h == "monthlen":
+        return "_monthlen({}, {})".format(_code(sym[1], index), _code(sym[2], index))
+    if h == "isleap":
+        return "_isleap({})".format(_code(sym[1], index))
     if h == "anyof":
         alts = []
         for conj in sym[1]:
@@ -269,10 +275,12 @@ def compile_path(conds, terms, leaves_order):
     for c in cond_codes:
         src += "        if not ({}):\n            return None\n".format(c)
     src += "        return ({},)\n".format(", ".join(term_codes)) if term_codes else "        return ()\n"
-    src += "    except (TypeError, ValueError, OverflowError, AttributeError):\n        return None\n"
+    src += "    except (TypeError, ValueError, OverflowError, AttributeError, IndexError):\n        return None\n"
     f = _COMPILED.get(src)
     if f is None:
-        ns = {"_mkdt": _mkdt, "_rd": _rd}
+        import calendar as _cal
+        ns = {"_mkdt": _mkdt, "_rd": _rd, "_monthlen": lambda y, m: _cal.monthrange(int(y), int(m))[1],
+              "_isleap": lambda y: _cal.isleap(int(y))}
         exec(src, ns)
         f = ns["_f"]
         _COMPILED[src] = f
